@@ -179,17 +179,19 @@ static void do_op(Cmd *c) {
             enum cc_stat st = cc_array_sized_zip_iter_add(&zit, e1, e2);
             escribble(e1, d1); escribble(e2, d2); o_stat(st);
         } else if (is_op(c, "zit_remove")) {
-            uint8_t *o1 = obuf_zero(d1), *o2 = obuf_zero(d2);
+            int no = (int)kv_u64(c, "noout", 0);     /* noout=1: both out-pointers NULL */
+            uint8_t *o1 = no ? NULL : obuf_zero(d1), *o2 = no ? NULL : obuf_zero(d2);
             enum cc_stat st = cc_array_sized_zip_iter_remove(&zit, o1, o2);
-            o_stat(st); if (st == CC_OK) o(" out=%s out2=%s", dec(o1, d1), dec(o2, d2));
-            __real_free(o1); __real_free(o2);
+            o_stat(st); if (st == CC_OK && !no) o(" out=%s out2=%s", dec(o1, d1), dec(o2, d2));
+            if (o1) __real_free(o1); if (o2) __real_free(o2);
         } else if (is_op(c, "zit_replace")) {
             uint8_t *e1 = ebuf(c->npos > 0 ? c->pos[0] : "0", d1), *e2 = ebuf(c->npos > 1 ? c->pos[1] : "0", d2);
-            uint8_t *o1 = obuf_zero(d1), *o2 = obuf_zero(d2);
+            int no = (int)kv_u64(c, "noout", 0);
+            uint8_t *o1 = no ? NULL : obuf_zero(d1), *o2 = no ? NULL : obuf_zero(d2);
             enum cc_stat st = cc_array_sized_zip_iter_replace(&zit, e1, e2, o1, o2);
             escribble(e1, d1); escribble(e2, d2);
-            o_stat(st); if (st == CC_OK) o(" out=%s out2=%s", dec(o1, d1), dec(o2, d2));
-            __real_free(o1); __real_free(o2);
+            o_stat(st); if (st == CC_OK && !no) o(" out=%s out2=%s", dec(o1, d1), dec(o2, d2));
+            if (o1) __real_free(o1); if (o2) __real_free(o2);
         } else if (is_op(c, "zit_index")) {
             o("st=- out=%zu", cc_array_sized_zip_iter_index(&zit));
         } else o("st=- badop");
